@@ -90,6 +90,13 @@ def make_array(kind, rows, names):
     import vector
 
     n = len(rows)
+    if kind in ("np1int", "akflatint"):
+        # integer-typed columns (accepted by the constructors): results must still be the float values
+        if not all(float(x).is_integer() for r in rows for x in r):
+            raise NotIntegral()
+        if kind == "np1int":
+            return vector.array({nm: numpy.array([int(r[i]) for r in rows], dtype=numpy.int64) for i, nm in enumerate(names)})
+        return vector.Array([dict(zip(names, [int(x) for x in r])) for r in rows])
     if kind == "np1":
         return vector.array({nm: numpy.array([r[i] for r in rows]) for i, nm in enumerate(names)})
     if kind == "np2":
@@ -110,6 +117,10 @@ def make_array(kind, rows, names):
     raise KeyError(kind)
 
 
+class NotIntegral(Exception):
+    pass
+
+
 def jag_counts(n):
     counts, left, k = [], n, 0
     pattern = [2, 0, 3, 1]
@@ -126,8 +137,10 @@ def param_array(kind, vals, n):
     import awkward as ak
 
     a = numpy.array(vals)
-    if kind == "np1":
+    if kind in ("np1", "np1int"):
         return a
+    if kind == "akflatint":
+        return ak.Array(a)
     if kind == "np2":
         return a.reshape(2, n // 2)
     if kind == "akflat":
@@ -150,6 +163,10 @@ def flat_result(kind, out, rk, n):
     import vector
 
     problems = []
+    if kind == "np1int":
+        kind = "np1"
+    if kind == "akflatint":
+        kind = "akflat"
     if kind in ("np1", "np2") and isinstance(out, ak.Array):
         # NumPy array combined with an Awkward record: the result is an Awkward array of the same shape
         lst = ak.to_list(out)
@@ -255,15 +272,27 @@ def ref_value(rk, out):
 
 
 LAYOUTS = ["np1", "np2", "akflat", "akjag", "akopt"]
+INT_LAYOUTS = ["np1int", "akflatint"]
 # how the second vector operand is supplied: same layout array, single object, single Awkward record
 B_FORMS = ["array", "object", "record", "numpy-for-awkward"]
 
 
-def run_group(key, cases, full):
+def _integral(c):
+    return all(t[2] == 1 for t in c["a"]) and all(t[2] == 1 for t in (c["b"] or []))
+
+
+def run_group(key, cases, full, only_int=False):
     import awkward as ak
     import vector
 
     recs, calls = [], 0
+    if not only_int:
+        # integer-typed arrays: the integral operand tuples of the group, in Cartesian storage
+        ints = [c for c in cases if _integral(c)]
+        if len(ints) >= 2:
+            r, c_, n_ = run_group(key, ints, full, only_int=True)
+            recs += r
+            calls += c_
     op, na, nb, fixed = json.loads(key)
     fixed = json.loads(fixed) if fixed else None
     if op in SKIP_OPS:
@@ -283,7 +312,9 @@ def run_group(key, cases, full):
         return recs, 0, 0
     combos = list(itertools.product(sigsa, sigsb))
     h = hsh(key)
-    if not full:
+    if only_int:
+        combos = [(coords.CANON[na], coords.CANON[nb] if nb else None)]
+    elif not full:
         combos = [combos[(h + 11 * k) % len(combos)] for k in range(2)]
     elif len(combos) > 12:
         combos = [combos[(h + 5 * k) % len(combos)] for k in range(12)]
@@ -312,7 +343,7 @@ def run_group(key, cases, full):
         if fa_eff == "momentum":
             namesa = [coords.MOM_NAMES[x] for x in namesa]
         rowsa = stored_rows(va, sa)
-        for layout in LAYOUTS:
+        for layout in (INT_LAYOUTS if only_int else LAYOUTS):
             forms = ["array"] if not nb else (B_FORMS if full else ["array", B_FORMS[1 + (hsh(key, layout) % 3)]])
             for bform in forms:
                 for pform in (["array", "scalar"] if nparams and len({json.dumps(p) for p in pvals}) == 1 else ["array"]) if nparams else ["none"]:
@@ -328,7 +359,7 @@ def run_group(key, cases, full):
                             if bform == "array":
                                 B = make_array(layout, stored_rows(vb, sb), namesb)
                             elif bform == "numpy-for-awkward":
-                                if layout != "akflat":
+                                if layout not in ("akflat", "akflatint"):
                                     continue
                                 B = make_array("np1", stored_rows(vb, sb), namesb)
                             else:
@@ -345,6 +376,8 @@ def run_group(key, cases, full):
                             warnings.simplefilter("ignore")
                             out = call(op, A, B, params, fixed)
                         calls += 1
+                    except NotIntegral:
+                        continue
                     except Exception as ex:
                         recs.append(dict(base, kind="exception", error=f"{type(ex).__name__}: {ex}"[:300]))
                         continue
